@@ -23,7 +23,7 @@ def main():
         sys.exit(0)
     # a seeded change is being tried on /repo by scripts/seedtest.py: an ordinary check must not see that tree
     lock = os.path.join(os.path.dirname(os.path.dirname(os.path.abspath(__file__))), ".build", "REPO_PATCHED.lock")
-    if not os.environ.get("VERIF_SEEDTEST"):
+    if not os.environ.get("VERIF_SEEDTEST") and os.environ.get("VERIF_REPO", "/repo") == "/repo":
         import time
         t0 = time.time()
         while os.path.exists(lock) and time.time() - t0 < 3600:
